@@ -17,7 +17,8 @@ LEAN_TARGETS = ['LLTD.Props.C20']
 OS_MACRO = re.compile(r'(__APPLE__|__linux__|_WIN32|__WIN32|__FreeBSD__|__sun|__sunos|__SVR4|__VMKERNEL__|__ESXI__|ESP_PLATFORM)')
 OS_HEADER = re.compile(r'(<windows\.h>|<CoreFoundation/|<CoreServices/|<IOKit/|<mach/|<SystemConfiguration/|<linux/|<net/|<ifaddrs\.h>|<arpa/inet\.h>|<syslog\.h>)')
 CORE_TUS = ['lltdBlock.c', 'lltdTlvOps.c', 'lltdWire.c', 'lltdAutomata.c']
-CONFIGS = [(cc, o, fs) for cc in ('gcc', 'clang') for o in ('-O0', '-O2', '-Os') for fs in ('', '-ffreestanding')]
+CONFIGS = [(cc, o, fs) for cc in ('gcc', 'clang') for o in ('-O0', '-O2', '-Os') for fs in ('', '-ffreestanding')] + \
+    [('gcc', '-O3', ''), ('gcc', '-Ofast', ''), ('clang', '-O3', '')]      # what CMake Release / hand-tuned ports use: more loop idioms recognised
 # the core built for OTHER targets the repository has ports for (object files only: no SDK, no libc headers — clang's own
 # freestanding headers are all the core includes): Apple triples in hosted mode (where LLVM knows the C library and may
 # emit calls into it), a 32-bit x86 and a bare-metal ARM target (ILP32: the compiler's 64-bit helpers appear)
